@@ -47,18 +47,31 @@ func c18Val(h *H, name string, kind int) (v object.PanObject, nan bool) {
 	case 5: // typed descendant of Str
 		h.Set("s_", object.NewPanStr(c18Strs[rt.Choice(len(c18Strs))]))
 		v = h.Eval(`StrChild.new(s_)`)
-	case 6: // array with one symbolic element
-		v = object.NewPanArr(object.NewPanInt(rt.Int64()))
+	case 6: // array: one symbolic element, the same plus a second element, or empty
+		switch rt.Choice(3) {
+		case 0:
+			v = object.NewPanArr(object.NewPanInt(rt.Int64()))
+		case 1:
+			v = object.NewPanArr(object.NewPanInt(rt.Int64()), object.NewPanInt(1))
+		default:
+			v = object.NewPanArr()
+		}
 	case 7: // object and its bear child
 		h.Set("n_", object.NewPanInt(rt.Int64()))
-		if rt.Bool() {
+		switch rt.Choice(4) {
+		case 0:
 			v = h.Eval(`{a: n_}`)
-		} else {
+		case 1:
 			v = h.Eval(`{a: n_}.bear({b: 1})`)
+		case 2: // a superset of the first shape
+			v = h.Eval(`{a: n_, b: 1}`)
+		default:
+			v = h.Eval(`{}`)
 		}
 	case 8: // map with a symbolic key
 		h.Set("n_", object.NewPanInt(rt.Int64()))
-		v = h.Eval(`%{n_: 1}`)
+		// shapes that are sub- / supersets of each other, with scalar and non-scalar keys
+		v = h.Eval([]string{`%{n_: 1}`, `%{n_: 1, [1]: 2}`, `%{n_: 1, 'k: 3}`, `%{[1]: 2}`, `%{[1]: 2, {a: 1}: 3}`, `%{}`}[rt.Choice(6)])
 	case 9: // range
 		h.Set("n_", object.NewPanInt(rt.Int64()))
 		v = h.Eval(`(n_:3)`)
